@@ -11,7 +11,7 @@ def predict(cases, v=None, workers=None, chunk=4000, spec="Lang"):
         path = os.path.join(vlib.WORK, f"progs_{os.getpid()}_{k}.ndjson")
         with open(path, "w") as f:
             for c in cases[k:k + chunk]:
-                f.write(json.dumps({"id": c["id"], "nodes": c["nodes"], "root": c["root"]}) + "\n")
+                f.write(json.dumps({"id": c["id"], "nodes": c["nodes"], "root": c["root"], "names": c.get("names", {"script": [115]})}) + "\n")
         r = vlib.tlc(spec, spec, env={"PROGS": path}, workers=workers or min(vlib.NCPU, 12), timeout=3300, heap="24g")
         os.remove(path)
         if r["distinct"] == 0 or r["timeout"] or any(e.startswith("Error:") for e in r["errors"]):
@@ -43,6 +43,8 @@ def observed_status(r):
         return "ok"
     if r["status"] == "runtime_error":
         lines = [l for l in r.get("stderr", "").splitlines() if l.strip()]
+        if not lines:
+            return f"exit:{r.get('code', 1)}"
         if lines and lines[-1].startswith("Fatal error deadlock"):
             return "deadlock"
         if lines and ":" in lines[-1]:
@@ -67,6 +69,37 @@ def compare(pred, r):
         b = obs_lines[i] if i < len(obs_lines) else None
         if a is None or b is None or not line_matches(a, b):
             return f"stdout line {i + 1}: predicted {a!r} observed {b!r} (status predicted {pred['st']} observed {st})"
-    if pred["st"] != st:
+    pst = "ok" if pred["st"] == "exit:0" else pred["st"]
+    if pst != st:
         return f"status: predicted {pred['st']} observed {st}; stderr tail: {r.get('stderr', '')[-200:]!r} {r.get('panic', '')}"
+    return None
+
+
+BT = re.compile(r"@(\d+):([A-Za-z0-9_]+|\?|\[\]=?)")
+
+
+def frame_text(node, fn, line_of, path):
+    if node == 0:
+        return f"native:0 in {fn}()"
+    return f"{path}:{line_of.get(node, '?')} in " + ("script" if fn == "script" else fn + "()")
+
+
+def resolve_backtraces(lines, line_of, path="/v/main.lay"):
+    """replace the model's back trace placeholders "@<node>:<fn>" by the text the VM prints"""
+    def rep(m):
+        return frame_text(int(m.group(1)), m.group(2), line_of, path)
+    return [BT.sub(rep, l) for l in lines]
+
+
+def compare_traceback(pred, r, line_of, path="/v/main.lay"):
+    """uncaught error: the traceback on stderr must list the predicted activations, innermost first"""
+    if not pred["st"].startswith("err:"):
+        return None
+    err = [l for l in r.get("stderr", "").splitlines() if l.strip()]
+    if not err or not err[0].startswith("Traceback"):
+        return f"no traceback on stderr: {err[:3]}"
+    frames = [l.strip() for l in err[1:-1]]
+    want = [frame_text(a["n"], a["f"], line_of, path) for a in pred["tb"]]
+    if frames != want:
+        return f"traceback frames: predicted {want} observed {frames}"
     return None
